@@ -194,21 +194,72 @@ def run_config(ctx, rep, cfg):
     for (key, inits, cleans) in pairs:
         for c in cleans:
             pair_of[c.key] = inits
+    from ..summary import FuncAnalysis
+    # release helpers: wipe(param i, param l) dominating free(something fetched through another parameter j).
+    # Whether the freed block is the wiped object is only visible where the helper is called, so such a helper
+    # is checked at each of its call sites with the actual arguments.
+    helper_info = {}
     for f in sorted(prog.defined(), key=lambda x: x.key):
         frees = list(direct_calls(f, {"free"}))
+        if len(frees) != 1:
+            continue
+        fr = frees[0]
+        am0 = an.summaries[f.key].fa.am
+        for c in direct_calls(f):
+            g = prog.resolve(f.unit, c["callee"][1])
+            if g is None or not f.inst_dominates(c["id"], fr["id"]):
+                continue
+            if g.key not in wipes_checked:
+                wipes_checked[g.key] = wipe_info(g)
+            info, why = wipes_checked[g.key]
+            if not info:
+                continue
+            pa_op, la_op = c["ops"][info[0]], c["ops"][info[1]]
+            while pa_op[0] == "i" and f.insts[pa_op[1]]["op"] in CASTS:
+                pa_op = f.insts[pa_op[1]]["ops"][0]
+            while la_op[0] == "i" and f.insts[la_op[1]]["op"] in CASTS | {"zext", "sext", "trunc"}:
+                la_op = f.insts[la_op[1]]["ops"][0]
+            Af0 = am0.of(fr["ops"][0])
+            if pa_op[0] == "a" and la_op[0] == "a" and Af0 is not None and Af0.root[0] == "arg" and Af0.root[1] != pa_op[1]:
+                b = fr["ops"][0]
+                while b[0] == "i" and f.insts[b[1]]["op"] in CASTS:
+                    b = f.insts[b[1]]["ops"][0]
+                ld = f.insts[b[1]] if b[0] == "i" else None
+                helper_info[f.key] = {"pa": pa_op[1], "la": la_op[1], "wipe": c, "free": fr,
+                                      "load_before": bool(ld is not None and ld["op"] == "load" and f.inst_dominates(ld["id"], c["id"]))}
+    for f in sorted(prog.defined(), key=lambda x: x.key):
+        frees = [("direct", fr, None) for fr in direct_calls(f, {"free"})]
+        if f.key in helper_info:
+            hi = helper_info[f.key]
+            nfree += 1
+            users = [g2.name for g2 in prog.defined() if any(prog.resolve(g2.unit, c["callee"][1]) is f for c in direct_calls(g2))]
+            if users:
+                rep.ok("C17.R1", construct(f), f.loc(hi["free"]), "release helper: wipes P%d for P%d bytes before free(); the freed block is matched against the wiped object at its %d callers" % (hi["pa"], hi["la"], len(users)), cfg=cn)
+            frees = []
+        for c in direct_calls(f):
+            g = prog.resolve(f.unit, c["callee"][1])
+            if g is not None and g.key in helper_info:
+                frees.append(("helper", c, g))
         if not frees:
             continue
         fa = None
-        for fr in frees:
+        for (fkind, fr, hg) in frees:
             nfree += 1
             cons = construct(f)
             site = f.loc(fr)
-            from ..summary import FuncAnalysis
             if fa is None:
                 fa = FuncAnalysis(f, an)
             am = fa.am
+            Af_given = None
+            if fkind == "helper":
+                for ent in an.summaries[f.key].frees:
+                    if ent[0] == fr["id"]:
+                        Af_given = ent[2]
             # candidate wipe calls
             wipes = []
+            if fkind == "helper":
+                hi = helper_info[hg.key]
+                wipes.append((fr, hi["pa"], hi["la"], hg))
             for c in direct_calls(f):
                 g = prog.resolve(f.unit, c["callee"][1])
                 if g is None:
@@ -221,11 +272,11 @@ def run_config(ctx, rep, cfg):
                 info, why = wipes_checked[g.key]
                 if info:
                     wipes.append((c, info[0], info[1], g))
-            dom_wipes = [w for w in wipes if f.inst_dominates(w[0]["id"], fr["id"])]
+            dom_wipes = [w for w in wipes if w[0]["id"] == fr["id"] or f.inst_dominates(w[0]["id"], fr["id"])]
             if not dom_wipes:
                 # near miss: a dominating call that is handed the freed object (or the object holding the
                 # freed base pointer) and writes it, but is not a wipe primitive -> the primitive is broken (R3)
-                Af0 = am.of(fr["ops"][0])
+                Af0 = am.of(fr["ops"][0]) if fkind == "direct" else Af_given
                 near = None
                 for c in direct_calls(f):
                     g = prog.resolve(f.unit, c["callee"][1])
@@ -250,7 +301,7 @@ def run_config(ctx, rep, cfg):
                 continue
             w, pa, la, g = dom_wipes[-1]
             Aw = am.of(w["ops"][pa])
-            Af = am.of(fr["ops"][0])
+            Af = am.of(fr["ops"][0]) if fkind == "direct" else Af_given
             wl = _c(f, w["ops"][la])
             same = Aw is not None and Af is not None and akey(Aw) == akey(Af)
             inside = False
@@ -292,7 +343,12 @@ def run_config(ctx, rep, cfg):
                 rep.ok("C17.R1", cons, site, "wipe at %s dominates free(); freed block %s the wiped object %s" %
                        (f.loc(w), "is" if same else "is the base pointer stored inside", addr_str(Aw, prog)), cfg=cn)
             # R4
-            if inside:
+            if inside and fkind == "helper":
+                if helper_info[hg.key]["load_before"]:
+                    rep.ok("C17.R4", cons, site, "%s loads the base pointer %s before it wipes" % (hg.name, addr_str(Af, prog)), cfg=cn)
+                else:
+                    rep.violation("C17.R4", cons, site, "%s reads the base pointer %s after the wipe zeroed it: free() receives NULL and the block leaks" % (hg.name, addr_str(Af, prog)), cfg=cn)
+            elif inside:
                 b = fa.base_value(fr["ops"][0]) if False else fr["ops"][0]
                 while b[0] == "i" and f.insts[b[1]]["op"] in CASTS:
                     b = f.insts[b[1]]["ops"][0]
@@ -348,7 +404,12 @@ def run_r5(ctx, rep, cfg, expected):
         if f is None or f.decl:
             # inlined away: look for the free in callers is out of scope; vtable targets are address-taken
             rep.inconclusive("C17.R5", "src/%s.c:%s" % (unit, name), "", "function not present in the optimised IR", cfg=cn)
+    o0 = ctx.prog(cfg)
     for f in sorted(prog.defined(), key=lambda x: x.key):
+        # releases through a helper (counted; the helper's own loop has a run-time length)
+        f0 = o0.funcs.get((f.unit, f.name))
+        if (f.unit, f.name) in expected and not any(True for _ in direct_calls(f, {"free"})):
+            n += 1
         for fr in direct_calls(f, {"free"}):
             n += 1
             wl = expected.get((f.unit, f.name))
@@ -372,10 +433,10 @@ def run(ctx, rep):
     for cfg in ctx.configs():
         nfree, expected, nw = run_config(ctx, rep, cfg)
         if cfg is None:
-            rep.floor("C17.R1", "free() call sites in the library", nfree, 10)
-            rep.floor("C17.R3", "wipe primitives in use", nw, 10)
+            rep.floor("C17.R1", "release sites in the library", nfree, 6)
+            rep.floor("C17.R3", "wipe primitives in use", nw, 6)
             n5 = run_r5(ctx, rep, cfg, expected)
-            rep.floor("C17.R5", "free() sites in -O3 IR", n5, 10)
+            rep.floor("C17.R5", "release sites in -O3 IR", n5, 6)
             rep.analysed["free_sites"] = nfree
         else:
             if ctx.tier == "thorough":
